@@ -1,11 +1,16 @@
 from vfeng import Unit, Harness
 PROPERTY = 'C10'
 def units(tier):
-    u = Unit('backend', 'wrap.cc', 'harness.c')
+    u = Unit('backend', 'wrap.cc', 'harness.c', externs=['vf_handle_solution', '_ZN3fmt14BasicFormatterIcNS_12ArgFormatterIcEEE6formatENS_15BasicCStringRefIcEE', '_ZNK2mp11BasicSolver11GetWarningsB5cxx11Ev', '_ZN2mp11BasicSolver14FormatObjValueEd'], ll2c_args=['--inline-mem', '2048'])
+    u.real_cxxflags = ['-fno-sanitize=vptr']
     u.stub_undefined = True   # the never-called P::P() references BasicSolver's out-of-line members
     return [u]
 def harnesses(tier):
-    return [Harness('h_predicates', 'backend', unwind=20, timeout=300,
+    hr = Harness('h_report', 'backend', unwind=70, timeout=600, mem_gb=16, tv_cases=0, bounds='status code = any 32-bit int; 0..2 objective values; any objective value', flags=['--object-bits', '10'],
+        claims='ReportSolution2AMPL: objective fragment in the solve message and objective value handed to the solution handler iff the code is 0-99, 300-349 or 400-449 and an objective value exists; the code handed on is SolveCode()',
+        assumptions=['object image: zero-filled backend object (all reporting options off, no extra message, no alternative solutions, no warnings) with the real vtable of a harness Impl', '{fmt} format interpreter, BasicSolver::GetWarnings and FormatObjValue (src/solver.cc) are stubs; the message is observed through the format strings written'])
+    hr.replay_on = 'gen'; hr.unwindset = ['h_report.0:1800']
+    return [hr, Harness('h_predicates', 'backend', unwind=20, timeout=300,
         bounds='status code = any 32-bit int (no bound)',
         claims='IsProblemSolved/SolvedOrFeasible/Infeasible/Unbounded/IndiffInfOrUnb/InfOrUnb/IsSolStatusRetrieved/SolveCode of StdBackend<Impl> agree with the documented ranges',
         assumptions=['object image: only the vptr (real vtable of a harness Impl) and status_.first are initialised; CBMC pointer checks prove nothing else is read'],
